@@ -73,6 +73,10 @@ def small_bodies():
             ("x", "{\"k\": k}"), ("x", "[...k]"), ("x", "{...k}"), ("x", "[...k, ...x]"), ("x", "k(...x)"),
             ("x", "(z => z + k)(x)"), ("x", "(k => k + 1)(x)"), ("x", "((k, x) => [k, x])(1, 2)"),
             ("x", "(k? => k)()"), ("x", "((...k) => k)(x)"),
+            # k is captured (used outside) AND an inner lambda has a parameter of that name, of every kind
+            ("x", "[k, (k => k)(x)]"), ("x", "[k, (k? => k)()]"), ("x", "[k, ((k?) => k ?? 1)(x)]"),
+            ("x", "[k, ((...k) => k)(x)]"), ("x", "[k, ((z, k?) => [z, k])(x)]"), ("x", "[k, ((z, ...k) => [z, k])(x, 1)]"),
+            ("x", "[(k? => [k])(), k]"),
             ("x", "map([1, 2], z => z + k)"), ("x", "[[1, 2] via (z => [z, k])]"), ("x", "z => [z, k, x]"),
             ("x", "(z => k => [z, k])(x)(1)"), ("x", "(z => w => [z, w, k])(x)(1)"),
             ("x", "do {\n  t = k\n  return [t, x]\n}"), ("x", "do {\n  k = x\n  return k\n}"),
